@@ -1,6 +1,7 @@
 package main
 
 import (
+	"fmt"
 	"strings"
 	"go/types"
 
@@ -120,4 +121,107 @@ func init() {
 		}
 		return Iface{T: types.Typ[types.String], V: lit("<type>")}, true
 	})
+}
+
+// ---- sync.Pool and sync.Map ----
+// A pool is a bag of items; Get takes the most recently Put item if there is one (in a Concurrent experiment that may
+// be an item another call has put: Put happens before that Get, and the item is shared state from then on), otherwise
+// it calls New. A sync.Map is an internally synchronised map: its operations are atomic and never race.
+
+type poolItem struct {
+	v           value
+	thread, idx int
+}
+
+func init() {
+	poolKey := func(p value) string { return fmt.Sprintf("pool:%p", p.(*value)) }
+	reg("(*sync.Pool).Put", func(in *Interp, fn *ssa.Function, args []value) (value, bool) {
+		k := poolKey(args[0])
+		items, _ := in.extra[k].([]poolItem)
+		t, i := in.schedSync("pool-put", args[0])
+		if in.sched != nil {
+			in.schedMark(args[1], "object handed to a sync.Pool")
+		}
+		in.extra[k] = append(items, poolItem{v: args[1], thread: t, idx: i})
+		return nil, true
+	})
+	reg("(*sync.Pool).Get", func(in *Interp, fn *ssa.Function, args []value) (value, bool) {
+		k := poolKey(args[0])
+		items, _ := in.extra[k].([]poolItem)
+		if n := len(items); n > 0 {
+			it := items[n-1]
+			in.extra[k] = items[:n-1]
+			t, i := in.schedSync("pool-get", args[0])
+			if t >= 0 && it.thread >= 0 && it.thread != t {
+				in.sched.hb = append(in.sched.hb, [4]int{it.thread, it.idx, t, i})
+			}
+			return it.v, true
+		}
+		pool := (*(args[0].(*value))).(Struct)
+		newFn := pool[len(pool)-1] // New func() any is the last field
+		if c, ok := newFn.(*Closure); ok && c != nil {
+			return in.call(in.curFrame, 0, c, nil), true
+		}
+		if f, ok := newFn.(*ssa.Function); ok && f != nil {
+			return in.call(in.curFrame, 0, f, nil), true
+		}
+		return Iface{}, true
+	})
+
+	type smEntry struct{ k, v value }
+	mapKey := func(p value) string { return fmt.Sprintf("syncmap:%p", p.(*value)) }
+	keyOf := func(in *Interp, k value) string {
+		i, ok := k.(Iface)
+		if !ok {
+			panic(engineErr("sync.Map key %T", k))
+		}
+		switch x := i.V.(type) {
+		case *Term:
+			if !x.Const {
+				panic(engineErr("symbolic sync.Map key"))
+			}
+			return fmt.Sprintf("%v:%s", i.T, x.S)
+		case *Str:
+			return fmt.Sprintf("%v:%s", i.T, x.MustConcrete("sync.Map key"))
+		}
+		panic(engineErr("sync.Map key of type %v", i.T))
+	}
+	reg("(*sync.Map).Load", func(in *Interp, fn *ssa.Function, args []value) (value, bool) {
+		m, _ := in.extra[mapKey(args[0])].(map[string]value)
+		if v, ok := m[keyOf(in, args[1])]; ok {
+			return Tuple{v, tTrue}, true
+		}
+		return Tuple{Iface{}, tFalse}, true
+	})
+	reg("(*sync.Map).Store", func(in *Interp, fn *ssa.Function, args []value) (value, bool) {
+		k := mapKey(args[0])
+		m, _ := in.extra[k].(map[string]value)
+		if m == nil {
+			m = map[string]value{}
+			in.extra[k] = m
+		}
+		m[keyOf(in, args[1])] = args[2]
+		return nil, true
+	})
+	reg("(*sync.Map).LoadOrStore", func(in *Interp, fn *ssa.Function, args []value) (value, bool) {
+		k := mapKey(args[0])
+		m, _ := in.extra[k].(map[string]value)
+		if m == nil {
+			m = map[string]value{}
+			in.extra[k] = m
+		}
+		kk := keyOf(in, args[1])
+		if v, ok := m[kk]; ok {
+			return Tuple{v, tTrue}, true
+		}
+		m[kk] = args[2]
+		return Tuple{args[2], tFalse}, true
+	})
+	reg("(*sync.Map).Delete", func(in *Interp, fn *ssa.Function, args []value) (value, bool) {
+		if m, _ := in.extra[mapKey(args[0])].(map[string]value); m != nil {
+			delete(m, keyOf(in, args[1]))
+		}
+		return nil, true
+	})
+	_ = smEntry{}
 }
